@@ -1,5 +1,8 @@
 pub mod conc;
+pub mod container;
 pub mod hist;
 pub mod inject;
+pub mod lifetime;
 pub mod scc;
 pub mod serde_eng;
+pub mod twin;
